@@ -115,7 +115,7 @@ def case_gen(draw):
     b = draw(st.one_of(st.integers(1, 8), st.integers(1, 2000), st.sampled_from([1, 2, 3, 1024])))
     rows = draw(st.one_of(
         st.sampled_from([0, max(0, b - 1), b, b + 1, 2 * b, 2 * b + 1, 3 * b]),
-        st.integers(0, 60), st.integers(0, 5000)))
+        st.integers(0, 60), st.integers(0, 60), st.integers(0, 300), st.integers(0, 5000)))
     rows = min(rows, 5000)
     cols = draw(st.lists(st.sampled_from(sorted(COLS)), min_size=1, max_size=5, unique=True))
     return {'rows': rows, 'dump_batch': b, 'load_batch': draw(st.one_of(st.integers(1, 8), st.integers(1, 2000))),
